@@ -282,7 +282,8 @@ void ValueStore::endDocumentFragment(ValueStoreCache* const valueStoreCache) {
 
         if (!keyValueStore) {
 
-            if (fDoReportError) {
+            // a keyref that selected nothing refers to nothing
+            if (fDoReportError && fValueTuples && !fValueTuples->isEmpty()) {
                 fScanner->getValidator()->emitError(XMLValid::IC_KeyRefOutOfScope,
                     fIdentityConstraint->getIdentityConstraintName());
             }
